@@ -59,9 +59,9 @@ def check(ctx: Ctx) -> None:
         else:
             continue  # neutral non-hint partner: outside the quantifier
         ctx.ob("C04.then", f"{lt},{rt}", ok, what, file=FILE, line=fn.node.lineno, function=cb)
-    report_sweep(ctx, ("C04.tree",), FILE)
+    ctx.soft(lambda: report_sweep(ctx, ("C04.tree",), FILE))
     from ..purity import check_models_and_transformers
 
-    check_models_and_transformers(ctx, "C04.fresh", "the requirement outcome must be a function of tree and assignment only")
+    ctx.soft(lambda: check_models_and_transformers(ctx, "C04.fresh", "the requirement outcome must be a function of tree and assignment only"))
     ctx.assume("L3: lark's Transformer calls the callbacks bottom-up with the transformed children (modelled in fdcalls.lark_transform)")
     ctx.assume("attrs validators of the node classes are not modelled (they only reject values of the wrong type)")
